@@ -185,8 +185,9 @@ def seedFound {α} (keyEq : α → α → Bool) : ToArgs α → List Nat → R (
     seedFound keyEq t' is
 
 def toCodeDataGo (v : Ver) (T : OpTable) (F : FlagTable) (dec : RawCode → R CodeData) : RawCode → R CodeData
-  | .mk argc pos kw _nl ss fl fln code lt fname name names varnames freevars cellvars consts => do
+  | .mk argc pos kw nl ss fl fln code lt fname name names varnames freevars cellvars consts => do
     let posonly := if v.hasPosOnly then pos else 0
+    if nl != varnames.length then throw .raised
     let lm ← LT.toLineMapping v.is310 lt code.length
     let lm : LMap := { lm with lines := lm.lines.map fun (o, l) => (o, l.map (· + fln)) }
     let constants ← consts.mapM (fun c => match c with
